@@ -38,11 +38,11 @@ def run(F, R, tier):
             if pt.startswith("std::option::Option::Some("):
                 binds = {b["name"]: b["lid"] for b in pat_bindings(arm["pat"])}
                 for nm, tg in (("packages.add_export", lambda n: callee_matches(n, ["PackageSpecifiers::add_export"])),
-                               ("redirects.insert", lambda n: n.get("k") == "MethodCall" and n["name"] == "insert" and peel(n["recv"]).get("field") == "redirects"),
+                               ("redirects.insert", lambda n: n.get("k") == "MethodCall" and n["name"] == "insert" and field_of(n["recv"]) == "redirects"),
                                ("Builder::load", lambda n: callee_matches(n, ["Builder::load"]))):
                     bad, _ = must_pass(F, arm["body"], tg, exit_kinds=("fallthrough", "return", "break", "continue"))
                     R.ob("C07-a", "resolved export: every path passes %s" % nm, not bad, "a path through the success arm skips %s" % nm, where(arm["body"]))
-                ri = [n for n in walk(arm["body"]) if n.get("k") == "MethodCall" and n["name"] == "insert" and peel(n["recv"]).get("field") == "redirects"]
+                ri = [n for n in walk(arm["body"]) if n.get("k") == "MethodCall" and n["name"] == "insert" and field_of(n["recv"]) == "redirects"]
                 for r in ri:
                     k = peel_value(r["args"][0])
                     v = peel_value(r["args"][1])
@@ -84,7 +84,7 @@ def run(F, R, tier):
                     R.ob("C07-a", "ensure_package(nv) dominates add_export (which unwraps the entry)", len(dom) >= 1, "add_export is not preceded by ensure_package on every path: it would panic", where(a))
             else:
                 ue = [n for n in walk(arm["body"]) if n.get("k") == "Struct" and n.get("variant") == "graph::JsrLoadError::UnknownExport"]
-                if R.ob("C07-a", "unknown export yields UnknownExport", len(ue) == 1 and any(n.get("k") == "MethodCall" and n["name"] == "insert" and peel(n["recv"]).get("field") == "module_slots" for n in walk(arm["body"])),
+                if R.ob("C07-a", "unknown export yields UnknownExport", len(ue) == 1 and any(n.get("k") == "MethodCall" and n["name"] == "insert" and field_of(n["recv"]) == "module_slots" for n in walk(arm["body"])),
                         "None arm does not store an UnknownExport error entry", where(arm["body"])):
                     f = {x["name"]: x["e"] for x in ue[0]["fields"]}
                     R.ob("C07-a", "the error lists the manifest's exports", any(callee_matches(x, ["JsrPackageVersionInfo::exports"]) for x in walk(f["exports"])), "exports = %s" % expr_text(f["exports"])[:60], where(ue[0]))
@@ -217,14 +217,14 @@ def run(F, R, tier):
 
     for fn, fld in (("packages::PackageSpecifiers::add_dependency", "found_dependencies"), ("packages::PackageSpecifiers::add_export", "exports")):
         b_ = F.body(fn)
-        ins_ = [n for n in b_["_nodes"] if n.get("k") == "MethodCall" and n["name"] == "insert" and peel(n["recv"]).get("field") == fld]
+        ins_ = [n for n in b_["_nodes"] if n.get("k") == "MethodCall" and n["name"] == "insert" and field_of(n["recv"]) == fld]
         bad, _ = must_pass(F, b_["body"]["value"], lambda n: n in ins_)
         R.ob("C07-d", "%s records what it is given on every path" % fn.split("::")[-1], len(ins_) == 1 and not bad,
              "a path through %s returns without inserting into %s: some requirement / export a package's module uses is not recorded" % (fn.split("::")[-1], fld), where(bad[0][1]) if bad else b_["file"])
 
     # ---------------- C07-d ------------------------------------------------
     an = F.body("packages::PackageSpecifiers::add_nv")
-    ins = [n for n in an["_nodes"] if n.get("k") == "MethodCall" and n["name"] == "insert" and peel(n["recv"]).get("field") == "package_reqs"]
+    ins = [n for n in an["_nodes"] if n.get("k") == "MethodCall" and n["name"] == "insert" and field_of(n["recv"]) == "package_reqs"]
     bad, _ = must_pass(F, an["body"]["value"], lambda n: n in ins)
     R.ob("C07-d", "add_nv records requirement -> name@version on every path", len(ins) == 1 and not bad, "package_reqs.insert skipped on some path", an["file"])
     byn = [n for n in an["_nodes"] if n.get("k") == "Field" and n["field"] == "packages_by_name"]
